@@ -113,6 +113,7 @@ type Interp struct {
 		FastPath    int
 		Decides     int
 		Unsupported map[string]int
+		EnumQueries int
 	}
 	Used     map[string]string // function → class (interp / intrinsic / stub)
 	InitUsed map[string]string
@@ -128,6 +129,7 @@ type Interp struct {
 	InitProblems     []string
 	runeBytes        map[*sym.Term][]*sym.Term // per path: rune term → the valid UTF-8 bytes it was decoded from
 	NoRuneProvenance bool
+	NoByteEnum       bool
 	stubMemo         map[string]Str
 	allowFn          map[string]bool // functions of unmodelled packages that may be interpreted
 }
@@ -381,6 +383,16 @@ func (ip *Interp) global(g *ssa.Global) *Value {
 	}
 	p := new(Value)
 	*p = ip.zero(g.Type().(*types.Pointer).Elem())
+	if g.Pkg != nil {
+		if data, ok := ip.EmbedFiles[g.Pkg.Pkg.Path()][g.Name()]; ok {
+			// //go:embed variable ([]byte or string)
+			if _, isSlice := (*p).(Slice); isSlice {
+				*p = ip.bytesSliceValue(mkStr(ip.ctx, string(data)).B)
+			} else {
+				*p = mkStr(ip.ctx, string(data))
+			}
+		}
+	}
 	ip.globals[g] = p
 	if !ip.inInit {
 		// created lazily on a path: must vanish with the path
@@ -540,6 +552,10 @@ func (ip *Interp) runFrame(fr *frame) {
 		r := recover()
 		gp, ok := r.(*goPanic)
 		if !ok {
+			if u, isU := r.(unsupportedErr); isU && u.stack == "" {
+				u.stack = ip.stackString()
+				panic(u)
+			}
 			panic(r) // pathEnd, unsupported, engine bug: propagate untouched
 		}
 		fr.panicking = true
